@@ -31,6 +31,10 @@ pub fn parts(id: &str, thorough: bool) -> Vec<Part> {
         let c = e1_check("C11dtor").unwrap();
         v.push(Part { name: "C11dtor".into(), cases: if thorough { c.thorough } else { c.quick }, rule: c.rule.into(), workers: w });
     }
+    if id == "C13" {
+        let c = e1_check("C13nest").unwrap();
+        v.push(Part { name: "C13nest".into(), cases: if thorough { c.thorough } else { c.quick }, rule: c.rule.into(), workers: w });
+    }
     if let Ok(n) = std::env::var("VCHECK_CASES") {
         if let Ok(n) = n.parse::<usize>() {
             for p in v.iter_mut() {
